@@ -4,6 +4,8 @@ import (
 	"bytes"
 	"context"
 	"fmt"
+	"hash/fnv"
+	"runtime"
 	"sync"
 	"testing"
 	"testing/synctest"
@@ -103,7 +105,7 @@ func TestC01(t *testing.T) {
 	r := NewRng(seed())
 	chains := tierN(120, 2500)
 	for c := 0; c < chains; c++ {
-		opts := roundOpts{maxPool: 30, byzantine: true, proposalsMax: 8}
+		opts := roundOpts{maxPool: 30, byzantine: true, proposalsMax: 8, atLimit: atLimitRate(), longTails: true}
 		if c%10 == 0 {
 			opts.maxPool = 160 // exceed the 100-result cap
 		}
@@ -209,6 +211,20 @@ func c01Edge() []JRound {
 		hi := must(ocr2keepersv3.AutomationObservation{Performable: rs[35:]}.Encode())
 		out = append(out, buildRound(4, 1, digest, 12, nil, [][]byte{lo, hi, hi, lo}, []int{0, 1, 2, 3}))
 	}
+	// message size: X is vouched for by oracle 0 (a small observation) and by oracle 1, whose observation is exactly at
+	// the advertised maximum length, one byte below it, or one byte above it (that one libocr never hands over); the
+	// room is taken by white space or by 80 other results with perform data. X's quorum hangs on oracle 1's vote.
+	for style := 0; style < 2; style++ {
+		for _, d := range []int{0, -1, 1} {
+			digest := genHash(r)
+			x := genResult(r, genUpkeepID(r, style == 0), 100)
+			y := genResult(r, genUpkeepID(r, true), 100)
+			small := must(ocr2keepersv3.AutomationObservation{Performable: []ocr2keepers.CheckResult{x}}.Encode())
+			full := padObservation(ocr2keepersv3.AutomationObservation{Performable: []ocr2keepers.CheckResult{y, x}}, ocr2keepersv3.MaxObservationLength+d, style)
+			empty := must(ocr2keepersv3.AutomationObservation{}.Encode())
+			out = append(out, buildRound(4, 1, digest, uint64(20+3*style+d), nil, [][]byte{small, full, empty}, []int{0, 1, 2}))
+		}
+	}
 	return out
 }
 
@@ -304,20 +320,48 @@ func dirtyNode(r *Rng, node *Node, w *roundWorld) {
 	node.Logs.payloads = payloads
 	node.Logs.mu.Unlock()
 	time.Sleep(time.Duration(r.Range(2100, 9000)) * time.Millisecond)
-	for i, res := range w.results {
-		_ = i
-		_ = res
-	}
+	var events []ocr2keepers.TransmitEvent
 	for i, res := range w.results {
 		if i%3 == 0 {
 			rep := must(node.Enc.Encode(res))
 			node.Plugin.ShouldAcceptAttestedReport(context.Background(), 1, ocr3types.ReportWithInfo[pluginInfo]{Report: rep})
+			// half of the accepted work has meanwhile been performed (or has gone stale) on chain, as THIS node's RPC sees it
+			if i%6 == 0 {
+				typ := ocr2keepers.PerformEvent
+				if i%12 == 0 {
+					typ = ocr2keepers.StaleReportEvent
+				}
+				events = append(events, ocr2keepers.TransmitEvent{Type: typ, TransmitBlock: res.Trigger.BlockNumber + 2, Confirmations: 5,
+					TransactionHash: [32]byte{byte(i), 0xe1}, UpkeepID: res.UpkeepID, WorkID: res.WorkID, CheckBlock: res.Trigger.BlockNumber})
+			}
 		}
 	}
 	node.Enc.Take()
+	if len(events) > 0 {
+		node.Events.Set(events...)
+		time.Sleep(1300 * time.Millisecond) // the coordinator polls its event provider once a second
+		synctest.Wait()
+	}
 }
 
+// atLimitRate: how many rounds per thousand carry an observation at the size limit (each is a case line of 2–6 MB)
+func atLimitRate() int {
+	if thorough() {
+		return 5
+	}
+	return 20
+}
+
+// the GOMAXPROCS values the evaluations of C02 rotate through (reset at the start of every case)
+var procsTurn = []int{1, 2, 3, 8, 6}
+var procsNext int
+
 func evalRound(node *Node, in JRound, times int) (impl JRoundImpl, evals []string, reports [][]string, reperr []string) {
+	return evalRoundX(node, in, times, true)
+}
+
+// evalRoundX: `extras` adds the evaluations under a cancelled context, another epoch and in concurrent goroutines
+func evalRoundX(node *Node, in JRound, times int, extras bool) (impl JRoundImpl, evals []string, reports [][]string, reperr []string) {
 	var kept [][]byte   // outcome byte slices exactly as returned, retained by the caller
 	var keptHex []string // what they contained when they were returned
 	defer func() {
@@ -330,11 +374,8 @@ func evalRound(node *Node, in JRound, times int) (impl JRoundImpl, evals []strin
 	}()
 	// evaluation under a cancelled context, under another epoch/round of the same sequence number, and concurrently with
 	// other evaluations: if a value is returned it must be the same bytes
-	{
-		var aos []ocr2plustypes.AttributedObservation
-		for _, o := range in.Obs {
-			aos = append(aos, ocr2plustypes.AttributedObservation{Observation: unhx(o.Raw), Observer: commontypes.OracleID(o.Oracle)})
-		}
+	if extras {
+		aos := delivered(node, in)
 		prevBytes := prevBytesOf(in)
 		cctx, cancel := context.WithCancel(context.Background())
 		cancel()
@@ -377,6 +418,14 @@ func evalRound(node *Node, in JRound, times int) (impl JRoundImpl, evals []strin
 			}
 			runOutcome(node, other)
 		}
+		// every second evaluation runs as if on a machine with another number of usable CPUs (the oracles of a network
+		// do not run on identical hardware): 1, 2, 3, 8 in turn across the evaluations and instances of a case; the
+		// others run with what the process has (16 in the checks)
+		oldProcs := runtime.GOMAXPROCS(0)
+		if k%2 == 1 || times == 1 {
+			runtime.GOMAXPROCS(procsTurn[procsNext%len(procsTurn)])
+			procsNext++
+		}
 		im, raw := runOutcome(node, in)
 		if raw != nil {
 			kept = append(kept, raw)
@@ -396,6 +445,7 @@ func evalRound(node *Node, in JRound, times int) (impl JRoundImpl, evals []strin
 				reperr = append(reperr, err.Error())
 			}
 		}
+		runtime.GOMAXPROCS(oldProcs)
 		node.Enc.Take()
 		reports = append(reports, reps)
 		// the caller recycles the buffer Outcome returned: the same slice now holds ANOTHER outcome of the same length
@@ -437,11 +487,20 @@ func TestC02(t *testing.T) {
 	names, raws, replayOnly := corpusInputs(t, "C02")
 	earlier := "" // when set: what the same input evaluated to earlier in this process (added to the evaluations compared)
 	run2 := func(src string, in JRound, w *roundWorld, r *Rng) JRoundImpl {
-		// node A is the caller's fresh node; here: evaluate on two more instances, one fresh and one "dirty"
+		// node A: an instance of a factory that has built an instance for ANOTHER configuration before (every field set,
+		// none at its default); node B: the same configuration on a factory that has built nothing (a restarted process),
+		// with staged results, other work in flight and another clock; node C: created thirty years later. The off-chain
+		// configuration document is partial (fields absent, null, zero, negative: the documented defaults apply).
 		var out c02Impl
+		dh := fnv.New64a()
+		dh.Write([]byte(in.Digest))
+		dh.Write(seqBytes(in.Seq))
+		doc := genOffchainDoc(NewRng(dh.Sum64()))
+		procsNext = 0
 		synctest.Test(t, func(t *testing.T) {
-			withNode(t, NodeOpts{N: in.N, F: in.F, Digest: b32(in.Digest)}, func(a *Node) {
-				withNode(t, NodeOpts{N: in.N, F: in.F, Digest: b32(in.Digest), OracleID: 3}, func(b *Node) {
+			withNode(t, NodeOpts{N: in.N, F: in.F, Digest: b32(in.Digest), OffchainConfig: doc}, func(a *Node) {
+				withFreshNode(t, NodeOpts{N: in.N, F: in.F, Digest: b32(in.Digest), OracleID: 3, OffchainConfig: doc}, func(b *Node) {
+					inFlightSalt[b] = 1
 					if w != nil {
 						dirtyNode(r, b, w)
 					}
@@ -449,7 +508,7 @@ func TestC02(t *testing.T) {
 					// (an abandoned epoch, an equivocating peer): validation of those must leave no trace
 					for k, o := range in.Obs {
 						alt := must(ocr2keepersv3.AutomationObservation{BlockHistory: ocr2keepers.BlockHistory{{Number: ocr2keepers.BlockNumber(1000 + k), Hash: [32]byte{byte(k + 1)}}}}.Encode())
-						if k%2 == 1 && k > 0 {
+						if k%2 == 1 && k > 0 && in.Obs[k-1].Len <= b.Info.Limits.MaxObservationLength {
 							alt = unhx(in.Obs[k-1].Raw) // somebody else's observation under this observer's id
 						}
 						b.Plugin.ValidateObservation(context.Background(), ocr3types.OutcomeContext{SeqNr: in.Seq}, nil,
@@ -458,11 +517,21 @@ func TestC02(t *testing.T) {
 					impl, e1, r1, x1 := evalRound(a, in, 4)
 					_, e2, r2, x2 := evalRound(b, in, 4)
 					out = c02Impl{JRoundImpl: impl, Evals: append(e1, e2...), Reports: append(r1, r2...), RepErr: append(x1, x2...)}
-					if earlier != "" {
-						out.Evals = append(out.Evals, earlier)
-					}
 				})
 			})
+			// the oracle's clock: the same round evaluated by an instance whose clock reads three decades later (no
+			// service is running at this point, so the jump costs nothing)
+			time.Sleep(30 * 365 * 24 * time.Hour)
+			withNode(t, NodeOpts{N: in.N, F: in.F, Digest: b32(in.Digest), OracleID: 5, OffchainConfig: doc}, func(c *Node) {
+				inFlightSalt[c] = 2
+				_, e3, r3, x3 := evalRoundX(c, in, 1, false)
+				out.Evals = append(out.Evals, e3...)
+				out.Reports = append(out.Reports, r3...)
+				out.RepErr = append(out.RepErr, x3...)
+			})
+			if earlier != "" {
+				out.Evals = append(out.Evals, earlier)
+			}
 		})
 		em.Emit(src, in, out)
 		return out.JRoundImpl
@@ -486,6 +555,15 @@ func TestC02(t *testing.T) {
 		run2("edge", in, nil, nil)
 	}
 	for _, in := range c01Edge() {
+		// the message-size boundary is C01's business; of those witnesses only the two exactly at the limit are evaluated
+		// here (each costs some sixty decodes of a megabyte)
+		skip := false
+		for _, o := range in.Obs {
+			skip = skip || o.Len == ocr2keepersv3.MaxObservationLength-1 || o.Len == ocr2keepersv3.MaxObservationLength+1
+		}
+		if skip {
+			continue
+		}
 		run2("edge-c01", in, nil, nil)
 	}
 	c02ShuffleCases(em, NewRng(seed()+2500), tierN(300, 6000))
@@ -505,7 +583,7 @@ func TestC02(t *testing.T) {
 		earlier = ""
 	}()
 	for c := 0; c < n; c++ {
-		w := newRoundWorld(r, roundOpts{maxPool: 25, byzantine: true, proposalsMax: 10})
+		w := newRoundWorld(r, roundOpts{maxPool: 25, byzantine: true, proposalsMax: 10, atLimit: atLimitRate() / 2, longTails: true})
 		var prev *ocr2keepersv3.AutomationOutcome
 		seq := uint64(r.Range(1, 1000))
 		for k := 0; k < 2; k++ {
